@@ -160,11 +160,19 @@ func deciderOf(v ssa.Value) string {
 		if b, ok := x.Call.Value.(*ssa.Builtin); ok {
 			return b.Name()
 		}
+		if k := forwardedCall(x, 0); k != nil {
+			return deciderOf(k)
+		}
 		if o := calleeObj(x); o != nil {
 			return shortFuncName(o)
 		}
 		return "dynamic-call"
 	case *ssa.Extract:
+		if call, ok := x.Tuple.(*ssa.Call); ok {
+			if k := forwardedCall(call, x.Index); k != nil {
+				return deciderOf(k)
+			}
+		}
 		return deciderOf(x.Tuple)
 	case *ssa.BinOp:
 		l, rr := deciderOf(x.X), deciderOf(x.Y)
@@ -212,8 +220,11 @@ func paramFields(fn *ssa.Function, v ssa.Value) []string {
 				return paramLabel(fn, i), true
 			}
 		}
-		for _, p := range fn.FreeVars {
+		for i, p := range fn.FreeVars {
 			if x == ssa.Value(p) {
+				if freeVarIsConstant(fn, i) {
+					return "", true // a captured constant (one := big.NewInt(1)): not data
+				}
 				return "free:" + shortType(p.Type()), true
 			}
 		}
@@ -328,7 +339,22 @@ func paramFields(fn *ssa.Function, v ssa.Value) []string {
 				set[n] = true
 			}
 			return
+		case *ssa.Extract:
+			if call, isCall := y.Tuple.(*ssa.Call); isCall {
+				if ls, ok := expandHelperCall(fn, call, y.Index); ok {
+					for _, l := range ls {
+						set[l] = true
+					}
+					return
+				}
+			}
 		case *ssa.Call:
+			if ls, ok := expandHelperCall(fn, y, 0); ok {
+				for _, l := range ls {
+					set[l] = true
+				}
+				return
+			}
 			if cal := y.Call.StaticCallee(); cal != nil && cal.Signature.Recv() != nil && len(y.Call.Args) > 0 && cal.Pkg != nil && strings.HasPrefix(cal.Pkg.Pkg.Path(), modPath) {
 				if n, ok := rootParam(y.Call.Args[0], 0); ok && n != "" {
 					set[n+"."+cal.Name()+"()"] = true
@@ -490,7 +516,36 @@ func rejectGuards(fn *ssa.Function) []guard {
 					pos = b.Instrs[i].Pos()
 				}
 			}
-			out = append(out, guard{fn: fn, iff: x, decider: deciderOf(x.Cond), fields: paramFields(fn, x.Cond), cond: x.Cond, pos: pos, passBlk: pass})
+			dec, fields := deciderOf(x.Cond), guardFields(fn, x.Cond)
+			if d2, f2, ok := phiConjunction(fn, x.Cond); ok {
+				dec, fields = d2, f2
+			}
+			// a rejection decided by a conjunction `a && b`: one guard whose key names all conjuncts (in canonical order),
+			// so that the order in which they are written does not matter
+			decs := []string{dec}
+			for cb := b; cb.Comment == "cond.true" && len(cb.Preds) == 1; {
+				p := cb.Preds[0]
+				pif, ok := p.Instrs[len(p.Instrs)-1].(*ssa.If)
+				if !ok || p.Succs[0] != cb {
+					break
+				}
+				decs = append(decs, deciderOf(pif.Cond))
+				fields = append(fields, guardFields(fn, pif.Cond)...)
+				cb = p
+			}
+			if len(decs) > 1 {
+				sort.Strings(decs)
+				dec = strings.Join(decs, " & ")
+				sort.Strings(fields)
+				uniq := fields[:0]
+				for i, f := range fields {
+					if i == 0 || f != fields[i-1] {
+						uniq = append(uniq, f)
+					}
+				}
+				fields = uniq
+			}
+			out = append(out, guard{fn: fn, iff: x, decider: dec, fields: fields, cond: x.Cond, pos: pos, passBlk: pass})
 		case *ssa.Return:
 			if len(x.Results) == 0 {
 				continue
@@ -513,11 +568,11 @@ func rejectGuards(fn *ssa.Function) []guard {
 						if _, isC := e.(*ssa.Const); isC {
 							continue
 						}
-						out = append(out, guard{fn: fn, ret: x, decider: deciderOf(e), fields: paramFields(fn, e), cond: e, pos: e.Pos()})
+						out = append(out, guard{fn: fn, ret: x, decider: deciderOf(e), fields: guardFields(fn, e), cond: e, pos: e.Pos()})
 					}
 					continue
 				}
-				out = append(out, guard{fn: fn, ret: x, decider: deciderOf(last), fields: paramFields(fn, last), cond: last, pos: x.Pos()})
+				out = append(out, guard{fn: fn, ret: x, decider: deciderOf(last), fields: guardFields(fn, last), cond: last, pos: x.Pos()})
 			}
 		}
 	}
@@ -735,7 +790,67 @@ func liftedGuards(fn *ssa.Function, depth int) []guard {
 		} else if g.Signature.Recv() != nil && fn.Signature.Recv() == nil {
 			continue
 		}
-		coverG := guardCoversAccepts(G)
+		out = append(out, liftFrom(fn, call, g, onParam, guardCoversAccepts(G), G.iff, G.ret, G.passBlk, depth)...)
+	}
+	// tail calls: `return r.helper(x)` hands the helper's verdict to the caller unchanged, so the helper's guards are
+	// the caller's guards (a branch of a long method moved into a method of its own)
+	decided := map[*ssa.Call]bool{}
+	for _, G := range base {
+		if call := condCall(G.cond); call != nil {
+			decided[call] = true
+		}
+	}
+	allInstrs(fn, func(in ssa.Instruction) {
+		call, ok := in.(*ssa.Call)
+		if !ok || decided[call] || call.Call.IsInvoke() {
+			return
+		}
+		g := call.Call.StaticCallee()
+		if !isLocalHelper(fn, g) || g == fn {
+			return
+		}
+		if g.Signature.Recv() != nil && (fn.Signature.Recv() == nil || len(call.Call.Args) == 0 || call.Call.Args[0] != ssa.Value(fn.Params[0])) {
+			return
+		}
+		var ret *ssa.Return
+		tail := len(*call.Referrers()) > 0
+		for _, ref := range *call.Referrers() {
+			switch x := ref.(type) {
+			case *ssa.Return:
+				ret = x
+			case *ssa.Extract:
+				for _, r2 := range *x.Referrers() {
+					if rr, isRet := r2.(*ssa.Return); isRet {
+						ret = rr
+					} else {
+						tail = false
+					}
+				}
+			case *ssa.MakeInterface:
+				// a worker closure returning interface{}: `return check(x)` boxes the verdict
+				for _, r2 := range *x.Referrers() {
+					if rr, isRet := r2.(*ssa.Return); isRet {
+						ret = rr
+					} else {
+						tail = false
+					}
+				}
+			default:
+				tail = false
+			}
+		}
+		if !tail || ret == nil {
+			return
+		}
+		out = append(out, liftFrom(fn, call, g, false, true, nil, ret, nil, depth)...)
+	})
+	return out
+}
+
+// liftFrom translates the guards of helper g, called at `call` inside fn, into fn's vocabulary.
+func liftFrom(fn *ssa.Function, call *ssa.Call, g *ssa.Function, onParam bool, coverG bool, Giff *ssa.If, Gret *ssa.Return, GpassBlk *ssa.BasicBlock, depth int) []guard {
+	var out []guard
+	{
 		for _, S := range liftedGuards(g, depth+1) {
 			var fields []string
 			set := map[string]bool{}
@@ -793,7 +908,7 @@ func liftedGuards(fn *ssa.Function, depth int) []guard {
 				fields = append(fields, k)
 			}
 			sort.Strings(fields)
-			lg := guard{fn: fn, iff: G.iff, ret: G.ret, decider: S.decider, fields: fields, cond: S.cond, pos: S.pos, passBlk: G.passBlk, inner: S.iff}
+			lg := guard{fn: fn, iff: Giff, ret: Gret, decider: S.decider, fields: fields, cond: S.cond, pos: S.pos, passBlk: GpassBlk, inner: S.iff}
 			if S.inner != nil {
 				lg.inner = S.inner
 			}
@@ -896,4 +1011,341 @@ func reachesAvoiding(from, to, avoid *ssa.BasicBlock) bool {
 		}
 	}
 	return false
+}
+
+// ---- helper expansion: the labels of a value returned by an unexported helper of the same package are the labels of
+// what the helper returns, with the helper's parameters replaced by the caller's arguments. Extracting a block into a
+// helper (or inlining one) therefore does not change the labels the rules and the frozen inventories are keyed on.
+
+var helperDepth int
+
+func isLocalHelper(fn, cal *ssa.Function) bool {
+	if cal == nil || cal.Pkg == nil || fn.Pkg == nil || len(cal.Blocks) == 0 || cal.Synthetic != "" {
+		return false
+	}
+	root := fn
+	for root.Parent() != nil {
+		root = root.Parent()
+	}
+	if cal.Pkg != root.Pkg || cal == root {
+		return false
+	}
+	n := cal.Name()
+	return n != "" && !token.IsExported(n)
+}
+
+func expandHelperCall(fn *ssa.Function, call *ssa.Call, idx int) ([]string, bool) {
+	cal := call.Call.StaticCallee()
+	if call.Call.IsInvoke() || !isLocalHelper(fn, cal) || helperDepth >= 2 || call == noExpandCall {
+		return nil, false
+	}
+	helperDepth++
+	defer func() { helperDepth-- }()
+	// labels of the returned value inside the helper
+	inner := map[string]bool{}
+	nret := 0
+	for _, ret := range returnsOf(cal) {
+		if idx >= len(ret.Results) {
+			return nil, false
+		}
+		nret++
+		for _, l := range paramFields(cal, ret.Results[idx]) {
+			inner[l] = true
+		}
+	}
+	if nret == 0 {
+		return nil, false
+	}
+	// the helper's parameter labels and what the caller passes for them
+	type sub struct {
+		from string
+		to   []string
+	}
+	var subs []sub
+	for i := range cal.Params {
+		pl := paramLabel(cal, i)
+		if pl == "" || i >= len(call.Call.Args) {
+			continue
+		}
+		subs = append(subs, sub{pl, paramFields(fn, call.Call.Args[i])})
+	}
+	out := map[string]bool{}
+	for l := range inner {
+		cur := []string{l}
+		for _, sb := range subs {
+			var next []string
+			for _, c := range cur {
+				if !mentionsToken(c, sb.from) {
+					next = append(next, c)
+					continue
+				}
+				switch len(sb.to) {
+				case 0:
+					// a constant argument: the label loses that root
+					if c == sb.from {
+						continue
+					}
+					next = append(next, c)
+				case 1:
+					next = append(next, replaceToken(c, sb.from, sb.to[0]))
+				default:
+					for _, t := range sb.to {
+						if c == sb.from {
+							next = append(next, t)
+						} else {
+							next = append(next, replaceToken(c, sb.from, t))
+						}
+					}
+				}
+			}
+			cur = next
+		}
+		for _, c := range cur {
+			out[c] = true
+		}
+	}
+	if len(out) == 0 {
+		return nil, false // a helper returning constants chosen by its control flow: keep the call itself as the label
+	}
+	res := make([]string, 0, len(out))
+	for l := range out {
+		res = append(res, l)
+	}
+	sort.Strings(res)
+	return res, true
+}
+
+func isLabelBoundary(b byte) bool {
+	switch b {
+	case '.', '[', ']', ',', '(', ')', '+', ' ':
+		return true
+	}
+	return false
+}
+
+func mentionsToken(s, tok string) bool {
+	for i := 0; i+len(tok) <= len(s); i++ {
+		if s[i:i+len(tok)] == tok && (i == 0 || isLabelBoundary(s[i-1])) && (i+len(tok) == len(s) || isLabelBoundary(s[i+len(tok)])) {
+			return true
+		}
+	}
+	return false
+}
+
+func replaceToken(s, tok, with string) string {
+	var b strings.Builder
+	for i := 0; i < len(s); {
+		if i+len(tok) <= len(s) && s[i:i+len(tok)] == tok && (i == 0 || isLabelBoundary(s[i-1])) && (i+len(tok) == len(s) || isLabelBoundary(s[i+len(tok)])) {
+			b.WriteString(with)
+			i += len(tok)
+			continue
+		}
+		b.WriteByte(s[i])
+		i++
+	}
+	return b.String()
+}
+
+// noExpandCall: the call that *decides* the guard being labelled. A decider is named by its callee and fed by its
+// arguments (stable under changes inside the helper); only data that merely flows through a helper is expanded.
+var noExpandCall *ssa.Call
+
+func guardFields(fn *ssa.Function, cond ssa.Value) []string {
+	prev := noExpandCall
+	noExpandCall = condCall(cond)
+	if noExpandCall != nil {
+		// a helper that only forwards the verdict of one inner call: that call is the decider
+		idx := 0
+		if ex := condExtract(cond); ex != nil {
+			idx = ex.Index
+		}
+		if k := forwardedCall(noExpandCall, idx); k != nil {
+			if kc := condCall(k); kc != nil {
+				noExpandCall = kc
+			}
+		}
+	}
+	defer func() { noExpandCall = prev }()
+	return paramFields(fn, cond)
+}
+
+// condExtract: the Extract (if any) between a guard condition and its deciding call.
+func condExtract(v ssa.Value) *ssa.Extract {
+	for i := 0; i < 6; i++ {
+		switch x := v.(type) {
+		case *ssa.Extract:
+			return x
+		case *ssa.UnOp:
+			v = x.X
+		case *ssa.BinOp:
+			if _, isC := x.Y.(*ssa.Const); isC {
+				v = x.X
+			} else {
+				v = x.Y
+			}
+		default:
+			return nil
+		}
+	}
+	return nil
+}
+
+// forwardedCall: call targets an unexported same-package helper all of whose returns hand back, at result position idx,
+// the result of one and the same inner call (`return polynomial.Sum(ps)`, `x, err := f(); return x, err`): returns
+// that inner call (as value: the Extract or the call).
+func forwardedCall(call *ssa.Call, idx int) ssa.Value {
+	g := localHelperOf(call)
+	if g == nil {
+		return nil
+	}
+	// a pure wrapper: every return is `return K(...)` for one and the same inner call K (all results, in order)
+	var inner *ssa.Call
+	var val ssa.Value
+	for _, ret := range returnsOf(g) {
+		if idx >= len(ret.Results) {
+			return nil
+		}
+		for i, res := range ret.Results {
+			var k *ssa.Call
+			switch x := res.(type) {
+			case *ssa.Extract:
+				if x.Index == i {
+					k, _ = x.Tuple.(*ssa.Call)
+				}
+			case *ssa.Call:
+				if len(ret.Results) == 1 {
+					k = x
+				}
+			}
+			if k == nil || (inner != nil && inner != k) {
+				return nil
+			}
+			inner = k
+			if i == idx {
+				val = res
+			}
+		}
+	}
+	if inner == nil || len(returnsOf(g)) != 1 {
+		return nil
+	}
+	return val
+}
+
+// a decider naming a conjunction ("a & b") is matched conjunct by conjunct
+func decParts(d string) []string { return strings.Split(d, " & ") }
+func decIs(d, s string) bool {
+	for _, p := range decParts(d) {
+		if p == s {
+			return true
+		}
+	}
+	return false
+}
+func decHasSuffix(d, s string) bool {
+	for _, p := range decParts(d) {
+		if strings.HasSuffix(p, s) {
+			return true
+		}
+	}
+	return false
+}
+func decHasPrefix(d, s string) bool {
+	for _, p := range decParts(d) {
+		if strings.HasPrefix(p, s) {
+			return true
+		}
+	}
+	return false
+}
+
+// phiConjunction: a condition materialised as a boolean phi (`case a && b:` of a tag-less switch, `ok := a && b`) is
+// named like the conjunction / disjunction it encodes: the atoms are the non-constant edges plus the conditions of the
+// branches that short-circuit into the phi with a constant.
+func phiConjunction(fn *ssa.Function, cond ssa.Value) (string, []string, bool) {
+	v := cond
+	if u, ok := v.(*ssa.UnOp); ok && u.Op == token.NOT {
+		v = u.X
+	}
+	phi, ok := v.(*ssa.Phi)
+	if !ok {
+		return "", nil, false
+	}
+	if b, isB := phi.Type().Underlying().(*types.Basic); !isB || b.Kind() != types.Bool {
+		return "", nil, false
+	}
+	var atoms []ssa.Value
+	nFalse, nTrue := 0, 0
+	for i, e := range phi.Edges {
+		if k, isC := constBool(e); isC {
+			if k {
+				nTrue++
+			} else {
+				nFalse++
+			}
+			pb := phi.Block().Preds[i]
+			iff, isIf := pb.Instrs[len(pb.Instrs)-1].(*ssa.If)
+			if !isIf {
+				return "", nil, false
+			}
+			atoms = append(atoms, iff.Cond)
+			continue
+		}
+		if _, nested := e.(*ssa.Phi); nested {
+			return "", nil, false
+		}
+		atoms = append(atoms, e)
+	}
+	if len(atoms) < 2 || (nFalse > 0 && nTrue > 0) {
+		return "", nil, false
+	}
+	sep := " & "
+	if nTrue > 0 {
+		sep = " | "
+	}
+	var decs, fields []string
+	for _, a := range atoms {
+		decs = append(decs, deciderOf(a))
+		fields = append(fields, guardFields(fn, a)...)
+	}
+	sort.Strings(decs)
+	sort.Strings(fields)
+	uniq := fields[:0]
+	for i, f := range fields {
+		if i == 0 || f != fields[i-1] {
+			uniq = append(uniq, f)
+		}
+	}
+	return strings.Join(decs, sep), uniq, true
+}
+
+// freeVarIsConstant: the i-th captured variable of closure fn is, at every creation of the closure, a local of the
+// parent that holds a constant object (big.NewInt(k)) and is assigned once.
+func freeVarIsConstant(fn *ssa.Function, i int) bool {
+	parent := fn.Parent()
+	if parent == nil {
+		return false
+	}
+	found, all := false, true
+	allInstrs(parent, func(in ssa.Instruction) {
+		mc, ok := in.(*ssa.MakeClosure)
+		if !ok || mc.Fn != ssa.Value(fn) || i >= len(mc.Bindings) {
+			return
+		}
+		found = true
+		b := mc.Bindings[i]
+		var v ssa.Value = b
+		if a, isA := b.(*ssa.Alloc); isA {
+			v = singleStore(a)
+		}
+		call, isCall := v.(*ssa.Call)
+		if !isCall || !isCallToPkgFunc(call, "math/big", "NewInt") {
+			all = false
+			return
+		}
+		if _, isC := call.Call.Args[0].(*ssa.Const); !isC {
+			all = false
+		}
+	})
+	return found && all
 }
